@@ -65,6 +65,20 @@ func runC15(p *core.Program, r *core.Report) {
 			}
 		}
 		c.ob("PT5", s.name, "ranges over the string rune by rune", c.fpos(fn), rng != nil, "the string must be traversed with range (rune-wise), not byte-wise")
+		// the rune buffer starts empty (a length > 0 puts zero runes in front of the result)
+		for _, in := range path.Instrs(fn) {
+			switch mk := in.(type) {
+			case *ssa.MakeSlice:
+				k, isK := path.IntConst(mk.Len)
+				c.ob("PV1", s.name, "result buffer starts empty", p.InstrPos(mk), isK && k == 0, "the rune buffer must be created with length 0 (capacity is only a hint)")
+			case *ssa.Slice:
+				// make with a constant capacity is an array allocation re-sliced to the length
+				if al, ok := mk.X.(*ssa.Alloc); ok && al.Comment == "makeslice" {
+					k, isK := path.IntConst(mk.High)
+					c.ob("PV1", s.name, "result buffer starts empty", p.InstrPos(mk), mk.High == nil || (isK && k == 0), "the rune buffer must be created with length 0 (capacity is only a hint)")
+				}
+			}
+		}
 		if rng == nil {
 			continue
 		}
@@ -343,6 +357,32 @@ func runC15(p *core.Program, r *core.Report) {
 				s2, ok2 := bb.(*ssa.Slice)
 				if ok1 && ok2 && s1.X == str && s2.X == str && s1.Low == nil && s2.High == nil && s1.High != nil && s2.Low != nil {
 					okP = x.path(s1.High) == x.path(s2.Low) && x.path(s1.High) != ""
+					// the cut point index+1 lies in [0, len(str)]: index >= -1 and index < len(str)
+					fs := edgeFacts(x, fn, alt.blk)
+					lower := hasFact(fs, "index", ">=", "0") || hasFact(fs, "index", ">", "-1") || hasFact(fs, "index", ">=", "-1")
+					isLen := func(v ssa.Value) bool { return x.path(v) == "len(str)" }
+					idxP := paramByName(fn, "index")
+					upper := guardedBy(fn, alt.blk, func(cd path.Cond, truth bool) bool {
+						if idxP == nil || cd.X != ssa.Value(idxP) {
+							return false
+						}
+						rel := normCmp(cd.Op, truth)
+						if rel != "<" && rel != "<=" {
+							return false
+						}
+						for n := int64(0); n <= 6; n++ {
+							v, ok, used := evalLenExpr(cd.Y, isLen, n)
+							if !ok || !used {
+								return false
+							}
+							if (rel == "<=" && v > n-1) || (rel == "<" && v > n) {
+								return false
+							}
+						}
+						return true
+					})
+					_ = fs
+					c.ob("PT3", "gogu.SplitAtIndex", "cut point inside the string", p.InstrPos(rt), lower && upper, "str[:index+1] / str[index+1:] is reached on a path where index is not known to lie in [0, len(str)-1]: a negative or too large index panics instead of yielding (\"\", str) or (str, \"\")")
 				}
 			}
 			c.ob("PV3", "gogu.SplitAtIndex", "parts are complementary cuts of the input", p.InstrPos(rt), okP, "the two parts must be (\"\", str), (str, \"\") or str[:x] and str[x:] with the same x: otherwise their concatenation is not the input")
